@@ -305,13 +305,22 @@ func (g *PG) extLang(sc *scope, ty Ty, depth int) (Val, bool) {
 					b[i] = g.literal(TyAny)
 				}
 			}
-			o := t
-			if g.chance(25, "eq-other-type") {
+			if g.chance(35, "eq-other-type") {
+				// same user data, different type: never equal
 				if c := g.extPickType(func(c *extType) bool { return c != t && c.identity == t.identity && c.rect == t.rect }); c != nil {
-					o = c
+					return Call("equal?", g.extNewOf(sc, t, depth, a), g.extNewOf(sc, c, depth, b)), true
 				}
+				// no second type of that shape: define a twin on the spot (not
+				// recorded, the form may never be evaluated)
+				name := g.Prefix + "twin"
+				def := L(S("deftype"), S(name), L(S("x")), S("x"))
+				if t.rect {
+					def = L(S("deftype"), S(name), L(S("h"), S("w")), Call("sorted-map", S(":h"), S("h"), S(":w"), S("w")))
+				}
+				g.xstat("deftype")
+				return L(S("progn"), def, Call("equal?", g.extNewOf(sc, t, depth, a), L(append([]Val{S("new"), S(name)}, b...)...))), true
 			}
-			return Call("equal?", g.extNewOf(sc, t, depth, a), g.extNewOf(sc, o, depth, b)), true
+			return Call("equal?", g.extNewOf(sc, t, depth, a), g.extNewOf(sc, t, depth, b)), true
 		default:
 			obj, t, ok := g.extNew(sc, depth)
 			if !ok {
@@ -597,7 +606,7 @@ func GenProgramExt(maxForms, budget, depth, lang, std int) *rapid.Generator[Prog
 
 // ---------- standard library: string, math, base64 ----------
 
-var stdStrings = []string{"a,b,c", ",a,,b,", "", "abc", "aaa", "aaaa", "xAbC", "  pad  ", "\t\nab \n", "ÉcOLE ß", "a-b-c-", "hello world", "--x--", "日本語", "xyx"}
+var stdStrings = []string{"a,b,c", ",a,,b,", "", "abc", "aaa", "aaaa", "xAbC", "  pad  ", "\t\nab \n", "ÉcOLE ß", "a-b-c-", "hello world", "--x--", "日本語", "xyx", "Ünïcödé", "λΠ жЖ", "Straße"}
 var stdSeps = []string{",", "", "-", "aa", ",,", "abc", " ", "b", "本"}
 var stdCutsets = []string{"", "a", "ab", " ", "-x", "xy ", "é ", ",", "cba"}
 var stdB64 = []string{"", "QQ==", "QUI=", "QUJD", "QQ=", "QQ", "Q===", "====", "QUJ*", "QQ==QQ==", " QQ==", "QUJDRA==", "/+8=", "_-8=", "aGVsbG8gd29ybGQ=", "QUJD\n", "QR==", "QUJ=", "A", "AAAA", "=QQQ"}
@@ -682,7 +691,22 @@ func (g *PG) extStd(sc *scope, ty Ty, depth int) (Val, bool) {
 			if g.chance(g.IllRate, "trim-ill") {
 				return Call("string:"+op, g.args(sc, depth, TyStr, TyStr)...), true
 			}
-			return Call("string:"+op, g.stdStr(sc, depth), Str(g.pickStr("cutset", stdCutsets...))), true
+			cut := g.pickStr("cutset", stdCutsets...)
+			if cut != "" && g.chance(60, "trim-padded") {
+				// cutset characters at both ends by construction: the three
+				// functions differ exactly here
+				rs := []rune(cut)
+				pad := func(label string) string {
+					out := ""
+					for i, k := 0, g.un(0, 3, label); i < k; i++ {
+						out += string(rs[g.un(0, len(rs)-1, label)])
+					}
+					return out
+				}
+				core := g.pickStr("trim-core", "core", "", "m", "é-é", "q q")
+				return Call("string:"+op, Str(pad("lpad")+core+pad("rpad")), Str(cut)), true
+			}
+			return Call("string:"+op, g.stdStr(sc, depth), Str(cut)), true
 		default:
 			g.sstat("base64:encode")
 			enc := Call("base64:encode", g.stdStr(sc, depth))
